@@ -42,6 +42,8 @@ type Check struct {
 	Assumptions []string
 	// Serial - run in a single worker (checks touching process-wide state heavily still run in worker processes).
 	MaxWorkers int
+	// WorkersPerCPU - >1 for latency-bound workloads (DAG runs wait for scheduler ticks)
+	WorkersPerCPU int
 	// PerCaseTimeoutS - watchdog for one case (0 = default 60s)
 	PerCaseTimeoutS int
 	// Post - optional extra work done by the coordinator after the workers (e.g. fuzzing); may add to the aggregate.
